@@ -448,8 +448,10 @@ class XMLReader(object):
                     # Special handling of values;
                     curr_text = node.text.strip() if node.text else None
                     if tag == "values" and curr_text:
-                        content = from_csv(node.text)
-                        arguments[tag] = content
+                        try:
+                            arguments[tag] = from_csv(node.text)
+                        except csv.Error as exc:
+                            self.error("Invalid value content: %s" % str(exc), node)
                     # Special handling of cardinality
                     elif tag.endswith("_cardinality") and curr_text:
                         arguments[tag] = parse_cardinality(node.text)
